@@ -32,7 +32,7 @@ class Ctx:
     # --- TLC -------------------------------------------------------------------------------
     def tlc(self, module, cfg, subdir="mc", required_actions=None, expect_ok=True, **kw):
         spec_dir = util.SPEC
-        cfgp = os.path.join(subdir, cfg) if subdir else cfg
+        cfgp = cfg if os.path.isabs(cfg) else (os.path.join(subdir, cfg) if subdir else cfg)
         # module lives in spec/<subdir>/ if present there, else spec/
         mdir = spec_dir
         modpath = module
